@@ -38,10 +38,19 @@
 //! and the Err clause are monitored under their own (silent) regimes. α added to the intercept's
 //! information entry only changes the path (notes `iterations_max.*`: Gaussian α=0 needs 3
 //! iterations, α=1 up to 20), which the property does not constrain.
+//!
+//! Object-reuse histories (stream 3, see the section before `run`): one model object is fitted more than
+//! once — Err from a budget of 1..3 iterations then retried with 300 (as is / after set_tolerance); Ok then
+//! refitted on new data (same n keeping weights and offsets; another n and p), after set_weights, after
+//! set_offset, after set_penalty / set_tolerance; set_coef before the first fit. The last fit gets the whole single-fit oracle against the
+//! final configuration and is compared with a fresh twin (`C06.reuse.{coef,deviance,dispersion,aic_bic,
+//! stderr,predict}`) within the convergence-scaled limits. Reused object and twin are judged into scratch
+//! reports: what only the reused object fails is signed `assertion|refit:after-err` / `|refit:after-ok` / `|refit:after-set-coef`,
+//! what the twin fails as well keeps the single-fit signature above.
 use crate::gen::Rng;
 use crate::oracle::dd::Dd;
 use crate::oracle::linref;
-use crate::report::{guard, jf, jnum, par_cases, Cfg, Hasher, Report};
+use crate::report::{guard, jf, jnum, par_cases, Cfg, Hasher, Report, Violation};
 use compute::predict::{ExponentialFamily, GLM};
 use compute::verif_hooks::{count, Site};
 use serde_json::{json, Value};
@@ -443,46 +452,96 @@ fn simulate(rng: &mut Rng, fam: Fam, eta: &[f64]) -> Vec<f64> {
 
 /// A problem inside the quantifier, or None (counted as excluded) if no MLE was established.
 fn gen_problem(rng: &mut Rng, fam: Fam, alpha: f64, tol: f64, small: bool) -> Option<Prob> {
+    gen_problem_opt(rng, fam, alpha, tol, small, None, None)
+}
+
+/// `gen_problem` with the kind of weights / the presence of offsets imposed (the random choices are still
+/// drawn, so the stream of the main workload is the one it always was).
+fn gen_problem_opt(rng: &mut Rng, fam: Fam, alpha: f64, tol: f64, small: bool, force_w: Option<&'static str>, force_off: Option<bool>) -> Option<Prob> {
     let n = if small { rng.usize(20, 24) } else { rng.log_range(20.0, 500.99).floor() as usize };
     let p = if small { 2 } else { rng.usize(1, 6) };
     let design = if p == 1 { "intercept-only" } else { *rng.choose(&["normal", "polynomial", "indicator"]) };
     let wkind = *rng.choose(&["none", "none", "random", "integer"]);
+    let wkind = force_w.unwrap_or(wkind);
     let with_off = rng.chance(0.4);
+    let with_off = force_off.unwrap_or(with_off);
     for _attempt in 0..6 {
-        let x = match gen_design(rng, design, n, p) {
-            Some(x) => x,
-            None => continue,
-        };
-        // |β| <= 1.5: slopes inside the ball of radius 1.5, intercept chosen per family
-        let mut beta: Vec<f64> = (0..p).map(|_| rng.range(-1.5, 1.5)).collect();
-        let nb = beta[1..].iter().map(|b| b * b).sum::<f64>().sqrt();
-        if nb > 1.5 {
-            let r = 1.5 * rng.range(0.3, 1.0) / nb;
-            for b in beta[1..].iter_mut() {
-                *b *= r;
-            }
-        }
-        beta[0] = match fam {
-            Fam::Gaussian => rng.range(-1.5, 1.5),
-            Fam::Bernoulli => rng.range(-1.0, 1.0),
-            Fam::Poisson | Fam::QuasiPoisson => rng.range(0.0, 1.5),
-            Fam::Gamma | Fam::Exponential => rng.range(-1.0, 1.5),
-        };
-        let off: Option<Vec<f64>> = if with_off { Some((0..n).map(|_| rng.range(-0.5, 0.5)).collect()) } else { None };
-        let w: Option<Vec<f64>> = match wkind {
-            "random" => Some((0..n).map(|_| rng.range(0.5, 3.0)).collect()),
-            "integer" => Some((0..n).map(|_| rng.int(1, 3) as f64).collect()),
-            _ => None,
-        };
-        let eta: Vec<f64> = (0..n).map(|i| off.as_ref().map(|o| o[i]).unwrap_or(0.0) + (0..p).map(|j| x[i * p + j] * beta[j]).sum::<f64>()).collect();
-        let y = simulate(rng, fam, &eta);
-        let pr = Prob { fam, n, p, x, y, w, off, alpha, tol, design, wkind };
-        // MLE exists for the configured strength and for the unpenalised problem of the replicated/permuted data alike
-        if reference_fit(&pr, alpha).is_some() && (alpha == 0.0 || reference_fit(&pr, 1.0).is_some()) {
+        if let Some(pr) = try_build(rng, fam, n, p, design, wkind, with_off, None, None, alpha, tol) {
             return Some(pr);
         }
     }
     None
+}
+
+fn draw_weights(rng: &mut Rng, wkind: &str, n: usize) -> Option<Vec<f64>> {
+    match wkind {
+        "random" => Some((0..n).map(|_| rng.range(0.5, 3.0)).collect()),
+        "integer" => Some((0..n).map(|_| rng.int(1, 3) as f64).collect()),
+        _ => None,
+    }
+}
+
+/// does the (penalised) MLE exist for this configuration (and for strength 1, which the replicated /
+/// permuted comparisons and the unchanged tree's fixed point need)?
+fn mle_established(pr: &Prob) -> bool {
+    reference_fit(pr, pr.alpha).is_some() && (pr.alpha == 0.0 || reference_fit(pr, 1.0).is_some())
+}
+
+/// One attempt at a problem of the given shape. `given_w` / `given_off` impose the vectors themselves
+/// (a model object that keeps what it was configured with), otherwise they are drawn.
+#[allow(clippy::too_many_arguments)]
+fn try_build(
+    rng: &mut Rng,
+    fam: Fam,
+    n: usize,
+    p: usize,
+    design: &'static str,
+    wkind: &'static str,
+    with_off: bool,
+    given_w: Option<&Option<Vec<f64>>>,
+    given_off: Option<&Option<Vec<f64>>>,
+    alpha: f64,
+    tol: f64,
+) -> Option<Prob> {
+    let x = gen_design(rng, design, n, p)?;
+    // |β| <= 1.5: slopes inside the ball of radius 1.5, intercept chosen per family
+    let mut beta: Vec<f64> = (0..p).map(|_| rng.range(-1.5, 1.5)).collect();
+    let nb = beta[1..].iter().map(|b| b * b).sum::<f64>().sqrt();
+    if nb > 1.5 {
+        let r = 1.5 * rng.range(0.3, 1.0) / nb;
+        for b in beta[1..].iter_mut() {
+            *b *= r;
+        }
+    }
+    beta[0] = match fam {
+        Fam::Gaussian => rng.range(-1.5, 1.5),
+        Fam::Bernoulli => rng.range(-1.0, 1.0),
+        Fam::Poisson | Fam::QuasiPoisson => rng.range(0.0, 1.5),
+        Fam::Gamma | Fam::Exponential => rng.range(-1.0, 1.5),
+    };
+    let off: Option<Vec<f64>> = match given_off {
+        Some(o) => o.clone(),
+        None => {
+            if with_off {
+                Some((0..n).map(|_| rng.range(-0.5, 0.5)).collect())
+            } else {
+                None
+            }
+        }
+    };
+    let w: Option<Vec<f64>> = match given_w {
+        Some(w) => w.clone(),
+        None => draw_weights(rng, wkind, n),
+    };
+    let eta: Vec<f64> = (0..n).map(|i| off.as_ref().map(|o| o[i]).unwrap_or(0.0) + (0..p).map(|j| x[i * p + j] * beta[j]).sum::<f64>()).collect();
+    let y = simulate(rng, fam, &eta);
+    let pr = Prob { fam, n, p, x, y, w, off, alpha, tol, design, wkind };
+    // MLE exists for the configured strength and for the unpenalised problem of the replicated/permuted data alike
+    if mle_established(&pr) {
+        Some(pr)
+    } else {
+        None
+    }
 }
 
 // ---------------------------------------------------------------------------------------------
@@ -974,8 +1033,362 @@ fn nonconv_case(i: usize, rng: &mut Rng, rep: &mut Report) {
     }
 }
 
+// ---------------------------------------------------------------------------------------------
+// object-reuse histories
+//
+// The property speaks about "whenever fitting reports success": the success may be the second or third
+// `fit` of one model object — the retry with a larger budget after `Err`, a refit on new data, a refit
+// after `set_weights` / `set_offset` / `set_penalty` / `set_tolerance`. What the model was configured
+// with at the time of the call is "the given design, weights and offsets ... the configured strength".
+// Oracle: (a) the complete single-fit oracle (`check_success`: score equations, ridge LS, deviance,
+// dispersion, covariance, standard errors, aic/bic, predict) on the reused object against the FINAL
+// configuration; (b) a fresh twin configured with the final settings and fitted once: two successful
+// fits of the same problem both lie within the decrement threshold of the unique (penalised) MLE, so
+// their observables differ by at most the limits the permutation relation already uses. Nothing is
+// compared bit-for-bit (a warm start from the previous coefficients would be a legitimate implementation).
+
+/// fresh model configured like `lib_fit` does
+fn new_model(pr: &Prob) -> GLM {
+    let mut glm = GLM::new(pr.fam.lib());
+    glm.set_penalty(pr.alpha).set_tolerance(pr.tol);
+    if let Some(w) = &pr.w {
+        glm.set_weights(w);
+    }
+    if let Some(o) = &pr.off {
+        glm.set_offset(o);
+    }
+    glm
+}
+
+/// one `fit` on an existing object: (Ok(returned Ok?) | Err(panic), Fisher iterations)
+fn fit_on(glm: &mut GLM, pr: &Prob, max_iter: usize) -> (Result<bool, String>, u64) {
+    let before = count(Site::GlmIter);
+    let r = guard(|| glm.fit(&pr.x, &pr.y, max_iter).is_ok());
+    (r, count(Site::GlmIter) - before)
+}
+
+/// the setter calls that turn a model configured for `from` into one configured for `to`
+fn apply_change(glm: &mut GLM, from: &Prob, to: &Prob) -> Vec<&'static str> {
+    let mut called = Vec::new();
+    if to.alpha != from.alpha {
+        glm.set_penalty(to.alpha);
+        called.push("set_penalty");
+    }
+    if to.tol != from.tol {
+        glm.set_tolerance(to.tol);
+        called.push("set_tolerance");
+    }
+    if to.w != from.w {
+        if let Some(w) = &to.w {
+            glm.set_weights(w);
+            called.push("set_weights");
+        }
+    }
+    if to.off != from.off {
+        if let Some(o) = &to.off {
+            glm.set_offset(o);
+            called.push("set_offset");
+        }
+    }
+    called
+}
+
+/// |g⁻¹(η+δ) − g⁻¹(η)| for |δ| ≤ deta, given μ = g⁻¹(η)
+fn mu_shift_bound(fam: Fam, mu: f64, deta: f64) -> f64 {
+    match fam {
+        Fam::Gaussian => deta,
+        Fam::Bernoulli => (0.25 * deta).min(1.0),
+        _ => mu.abs() * deta.exp_m1(),
+    }
+}
+
+/// see `c14.rs`: violations of the reused object that its fresh twin does not share are re-labelled
+/// `assertion|reuse_regime` (and get the object's history attached); shared and twin-only ones keep the
+/// single-fit signature.
+fn merge_differential(rep: &mut Report, mut re: Report, fr: Report, reuse_regime: &str, history: &dyn Fn() -> Value) {
+    fn put(rep: &mut Report, v: Violation) {
+        let key = format!("{}|{}", v.assertion, v.regime);
+        match rep.violations.get_mut(&key) {
+            Some(e) => e.count += v.count,
+            None => {
+                rep.violations.insert(key, v);
+            }
+        }
+    }
+    let vs = std::mem::take(&mut re.violations);
+    rep.merge(re);
+    for (sig, v) in &fr.violations {
+        if !vs.contains_key(sig) {
+            let st = rep.assert_stat(&v.assertion);
+            st.checked += v.count;
+            st.failed += v.count;
+            put(rep, v.clone());
+        }
+    }
+    for (sig, mut v) in vs {
+        if !fr.violations.contains_key(&sig) {
+            if let Value::Object(m) = &mut v.first {
+                m.insert("single_fit_regime".into(), json!(v.regime));
+                m.insert("object_history".into(), history());
+            }
+            v.regime = reuse_regime.to_string();
+        }
+        put(rep, v);
+    }
+}
+
+/// Verdict on the last `fit` of a reused object (`outcome`, `iters`) for the final configuration `pr`.
+fn judge_reuse(rep: &mut Report, hist: &str, change: &str, pr: &Prob, glm: &GLM, outcome: Result<bool, String>, iters: u64, history: &dyn Fn() -> Value) {
+    let fam = pr.fam.name();
+    rep.case(hist);
+    rep.seen(&format!("refit:change={}", change), 1);
+    rep.seen(&format!("refit:{}", fam), 1);
+    rep.seen(&format!("refit:w={}", pr.wkind), 1);
+    rep.seen(&format!("refit:offsets={}", pr.off.is_some()), 1);
+    rep.distinct(
+        Hasher::new().s(hist).s(change).s(fam).u(pr.n as u64).u(pr.p as u64).f(pr.alpha).f(pr.tol).s(pr.wkind).u(pr.off.is_some() as u64).fs(&pr.y[..4]).finish(),
+        pr.p >= 2 && iters >= 2,
+    );
+    rep.check("C06.nonconv.budget_respected", hist, iters <= MAX_ITER as u64, || json!({"problem": pr.json(), "object_history": history(), "iterations": iters, "max_iter": MAX_ITER}));
+    let fresh = lib_fit(pr, MAX_ITER);
+    let fresh_ok = matches!(fresh.outcome, Ok(true));
+    match outcome {
+        Err(msg) => {
+            // single-fit finding if a fresh model panics on this problem as well
+            let regime = if fresh.outcome.is_err() { fam } else { hist };
+            rep.check("C06.fit.no_panic", regime, false, || json!({"problem": pr.json(), "object_history": history(), "panic": msg, "fresh_twin": format!("{:?}", fresh.outcome)}));
+        }
+        Ok(false) => {
+            // an error is never a wrong answer; counted so that the run is inconclusive if nothing was compared
+            rep.check("C06.fit.no_panic", hist, true, || json!(null));
+            rep.seen(if fresh_ok { "refit:err-where-fresh-ok" } else { "refit:err-like-fresh" }, 1);
+        }
+        Ok(true) => {
+            rep.check("C06.fit.no_panic", hist, true, || json!(null));
+            rep.seen(&format!("{}:ok", hist), 1);
+            let mut s_re = Report::new();
+            s_re.case_seed = rep.case_seed;
+            let re = check_success(&mut s_re, pr, glm, iters);
+            let mut s_fr = Report::new();
+            s_fr.case_seed = rep.case_seed;
+            let fr = match (&fresh.outcome, &fresh.glm) {
+                (Ok(true), Some(g)) => check_success(&mut s_fr, pr, g, fresh.iters).map(|v| (g, v)),
+                (Ok(false), _) => {
+                    rep.seen("refit:ok-where-fresh-err", 1);
+                    None
+                }
+                (Err(msg), _) => {
+                    rep.check("C06.fit.no_panic", fam, false, || json!({"problem": pr.json(), "panic": msg}));
+                    None
+                }
+                _ => None,
+            };
+            merge_differential(rep, s_re, s_fr, hist, history);
+            if let (Some((coef, _, _)), Some((g, (fcoef, fev, lims)))) = (re, fr) {
+                compare_twin(rep, hist, pr, glm, &coef, g, &fcoef, &fev, &lims, history);
+            }
+        }
+    }
+}
+
+/// reused object vs fresh twin, both fitted successfully on `pr`
+#[allow(clippy::too_many_arguments)]
+fn compare_twin(rep: &mut Report, hist: &str, pr: &Prob, glm: &GLM, coef: &[f64], fresh: &GLM, fcoef: &[f64], fev: &Eval, lims: &Limits, history: &dyn Fn() -> Value) {
+    let (n, p) = (pr.n, pr.p);
+    rep.seen("refit:compared-with-fresh", 1);
+    let ctx = |extra: Value| json!({"problem": pr.json(), "object_history": history(), "coef_reused_object": jf(coef), "coef_fresh_object": jf(fcoef), "detail": extra});
+    // coefficients: both within the decrement threshold of the same fixed point
+    let err = coef.iter().zip(fcoef).map(|(a, b)| (a - b).abs()).fold(0.0, f64::max);
+    let err = if err.is_nan() { f64::INFINITY } else { err };
+    rep.note_max("worst_ratio.reuse_coef_over_limit", err / lims.coef);
+    rep.check("C06.reuse.coef", hist, err <= lims.coef, || ctx(json!({"max_abs_diff": jnum(err), "limit": lims.coef})));
+    let se_re = guard(|| glm.coef_standard_error().map(|v| v.to_vec()).unwrap_or_default()).unwrap_or_default();
+    let se_fr = guard(|| fresh.coef_standard_error().map(|v| v.to_vec()).unwrap_or_default()).unwrap_or_default();
+    let pred_re = guard(|| glm.predict(&pr.x).map(|v| v.to_vec()).unwrap_or_default()).unwrap_or_default();
+    let pred_fr = guard(|| fresh.predict(&pr.x).map(|v| v.to_vec()).unwrap_or_default()).unwrap_or_default();
+    let (d1, d2) = (glm.deviance().unwrap_or(f64::NAN), fresh.deviance().unwrap_or(f64::NAN));
+    let (f1, f2) = (glm.dispersion().unwrap_or(f64::NAN), fresh.dispersion().unwrap_or(f64::NAN));
+    let identical = coef.iter().zip(fcoef).all(|(a, b)| a.to_bits() == b.to_bits()) && d1.to_bits() == d2.to_bits() && f1.to_bits() == f2.to_bits()
+        && se_re.len() == se_fr.len() && se_re.iter().zip(&se_fr).all(|(a, b)| a.to_bits() == b.to_bits())
+        && pred_re.len() == pred_fr.len() && pred_re.iter().zip(&pred_fr).all(|(a, b)| a.to_bits() == b.to_bits());
+    if identical {
+        rep.seen("refit:bitwise-identical-to-fresh", 1);
+    }
+    // deviance: each report is within lims.dev of the deviance at its own fitted means, and the two
+    // deviances at the fitted means differ by at most the threshold
+    let dl = 3.0 * lims.dev * (1.0f64).max(1.0 / fev.dev.max(f64::MIN_POSITIVE));
+    rep.note_max("worst_ratio.reuse_deviance_over_limit", rel_err(d1, d2) / dl);
+    rep.check("C06.reuse.deviance", hist, rel_err(d1, d2) <= dl, || ctx(json!({"deviance_reused_object": jnum(d1), "deviance_fresh_object": jnum(d2), "relative_limit": dl})));
+    rep.check("C06.reuse.dispersion", hist, rel_err(f1, f2) <= dl + 8.0 * EPS, || ctx(json!({"dispersion_reused_object": jnum(f1), "dispersion_fresh_object": jnum(f2), "relative_limit": dl})));
+    let (a1, a2) = (glm.aic().unwrap_or(f64::NAN), fresh.aic().unwrap_or(f64::NAN));
+    let (b1, b2) = (glm.bic().unwrap_or(f64::NAN), fresh.bic().unwrap_or(f64::NAN));
+    let il = dl * d2.abs() + 16.0 * EPS * a2.abs().max(b2.abs());
+    rep.check("C06.reuse.aic_bic", hist, (a1 - a2).abs() <= il && (b1 - b2).abs() <= il, || ctx(json!({"aic": [jnum(a1), jnum(a2)], "bic": [jnum(b1), jnum(b2)], "absolute_limit": il})));
+    // standard errors
+    let sl = 2.0 * lims.cov + if pr.fam.has_dispersion() { dl } else { 0.0 };
+    let worst = if se_re.len() == p && se_fr.len() == p { (0..p).map(|j| rel_err(se_re[j], se_fr[j])).fold(0.0, f64::max) } else { f64::INFINITY };
+    rep.note_max("worst_ratio.reuse_stderr_over_limit", worst / sl);
+    rep.check("C06.reuse.stderr", hist, worst <= sl, || ctx(json!({"stderr_reused_object": jf(&se_re), "stderr_fresh_object": jf(&se_fr), "worst_relative_diff": jnum(worst), "limit": sl})));
+    // predictions on the training design (with the offsets the model holds)
+    let mut worst = if pred_re.len() == n && pred_fr.len() == n { 0.0f64 } else { f64::INFINITY };
+    let mut at = 0;
+    if worst == 0.0 {
+        for i in 0..n {
+            let l1: f64 = pr.x[i * p..(i + 1) * p].iter().map(|v| v.abs()).sum();
+            let lim = mu_shift_bound(pr.fam, fev.mu[i], l1 * lims.coef) + 16.0 * fev.mu_bound[i] + f64::MIN_POSITIVE;
+            let r = (pred_re[i] - pred_fr[i]).abs() / lim;
+            let r = if r.is_nan() { f64::INFINITY } else { r };
+            if r > worst {
+                worst = r;
+                at = i;
+            }
+        }
+    }
+    rep.note_max("worst_ratio.reuse_predict_over_limit", worst);
+    rep.check("C06.reuse.predict", hist, worst <= 1.0, || ctx(json!({"row": at, "predict_reused_object": pred_re.get(at).map(|v| jnum(*v)), "predict_fresh_object": pred_fr.get(at).map(|v| jnum(*v)), "diff_over_limit": jnum(worst)})));
+}
+
+const CHANGES: [&str; 8] = ["retry", "retry", "retry+set_tolerance", "data", "data+n", "weights", "offsets+data", "penalty|tolerance"];
+
+fn reuse_case(i: usize, small: bool, rng: &mut Rng, rep: &mut Report) {
+    let mode = i % 9;
+    let q = i / 9;
+    let fam = FAMS[q % 6];
+    let alpha = ALPHAS[(q / 6) % 4];
+    let tol = TOLS[rng.usize(0, 3)];
+    // weights are what a history is most likely to lose: imposed in two thirds of the cases
+    let force_w = [Some("random"), Some("integer"), None][(q % 6 + q / 6) % 3];
+    let p1 = match gen_problem_opt(rng, fam, alpha, tol, small, force_w, None) {
+        Some(pr) => pr,
+        None => {
+            rep.seen("excluded:no-mle-established-by-reference-fit", 1);
+            return;
+        }
+    };
+    let mut glm = match guard(|| new_model(&p1)) {
+        Ok(g) => g,
+        Err(msg) => {
+            rep.check("C06.fit.no_panic", fam.name(), false, || json!({"problem": p1.json(), "panic": msg, "note": "while configuring a new model"}));
+            return;
+        }
+    };
+    if mode == 8 {
+        // the caller has put coefficients into the model (public setter) before fitting it
+        let scale = *rng.choose(&[1.0, 30.0, 1e-3]);
+        let preset: Vec<f64> = (0..p1.p).map(|_| scale * rng.range(-1.5, 1.5)).collect();
+        glm.set_coef(&preset);
+        let (r, it) = fit_on(&mut glm, &p1, MAX_ITER);
+        let history = || json!({"setters_called_before_final_fit": ["set_coef"], "set_coef": jf(&preset), "final_fit_max_iter": MAX_ITER});
+        judge_reuse(rep, "refit:after-set-coef", "set_coef", &p1, &glm, r, it, &history);
+        return;
+    }
+    // ---- first fit: too small a budget (modes 0..2) or a generous one
+    let first_budget = if mode <= 2 { rng.usize(1, 3) } else { MAX_ITER };
+    let (r1, it1) = fit_on(&mut glm, &p1, first_budget);
+    let hist = match &r1 {
+        Err(msg) => {
+            rep.check("C06.fit.no_panic", fam.name(), false, || json!({"problem": p1.json(), "max_iter": first_budget, "panic": msg}));
+            return;
+        }
+        Ok(true) => "refit:after-ok",
+        Ok(false) => "refit:after-err",
+    };
+    // ---- what the caller does next
+    let mut change = CHANGES[mode];
+    let p2: Option<Prob> = match mode {
+        0 | 1 => Some(p1.clone()),
+        2 => {
+            // loosen or tighten the tolerance, then retry
+            let mut q2 = p1.clone();
+            q2.tol = *rng.choose(&TOLS.iter().copied().filter(|t| *t != p1.tol).collect::<Vec<_>>());
+            Some(q2)
+        }
+        3 | 6 => {
+            // new responses and design of the same length; the model keeps its weights (and, mode 3, its offsets)
+            let mut found = None;
+            for _ in 0..6 {
+                let p = rng.usize(1, 6);
+                let design = if p == 1 { "intercept-only" } else { *rng.choose(&["normal", "polynomial", "indicator"]) };
+                let given_off = if mode == 3 { Some(&p1.off) } else { None };
+                if let Some(pr) = try_build(rng, fam, p1.n, p, design, p1.wkind, true, Some(&p1.w), given_off, alpha, tol) {
+                    found = Some(pr);
+                    break;
+                }
+            }
+            found
+        }
+        4 => {
+            // another number of rows: weights / offsets the model holds must be replaced, others may be added
+            let fw = if p1.w.is_some() { Some(*rng.choose(&["random", "integer"])) } else { None };
+            let fo = if p1.off.is_some() { Some(true) } else { None };
+            let mut found = None;
+            for _ in 0..4 {
+                match gen_problem_opt(rng, fam, alpha, tol, small, fw, fo) {
+                    Some(pr) if pr.n != p1.n => {
+                        found = Some(pr);
+                        break;
+                    }
+                    _ => {}
+                }
+            }
+            found
+        }
+        5 => {
+            let mut found = None;
+            for _ in 0..4 {
+                let mut q2 = p1.clone();
+                q2.wkind = *rng.choose(&["random", "integer"]);
+                q2.w = draw_weights(rng, q2.wkind, q2.n);
+                if mle_established(&q2) {
+                    found = Some(q2);
+                    break;
+                }
+            }
+            found
+        }
+        _ => {
+            let mut q2 = p1.clone();
+            if q % 2 == 0 {
+                change = "penalty";
+                q2.alpha = *rng.choose(&ALPHAS.iter().copied().filter(|a| *a != p1.alpha).collect::<Vec<_>>());
+            } else {
+                change = "tolerance";
+                q2.tol = *rng.choose(&TOLS.iter().copied().filter(|t| *t != p1.tol).collect::<Vec<_>>());
+            }
+            if mle_established(&q2) {
+                Some(q2)
+            } else {
+                None
+            }
+        }
+    };
+    let p2 = match p2 {
+        Some(pr) => pr,
+        None => {
+            rep.seen("excluded:no-mle-established-by-reference-fit", 1);
+            return;
+        }
+    };
+    let setters = match guard(|| apply_change(&mut glm, &p1, &p2)) {
+        Ok(s) => s,
+        Err(msg) => {
+            rep.check("C06.fit.no_panic", hist, false, || json!({"problem": p2.json(), "panic": msg, "note": "in a setter"}));
+            return;
+        }
+    };
+    let (r2, it2) = fit_on(&mut glm, &p2, MAX_ITER);
+    let history = || {
+        json!({"first_fit": {"problem": if mode <= 2 || mode == 5 || mode == 7 { json!({"same_data_as_final_problem": true, "alpha": p1.alpha, "tolerance": p1.tol, "weights": p1.w.as_ref().map(|w| jf(w)), "offsets": p1.off.as_ref().map(|o| jf(o))}) } else { p1.json() },
+                             "max_iter": first_budget, "returned": if matches!(r1, Ok(true)) { "Ok" } else { "Err" }, "iterations": it1},
+               "setters_called_before_final_fit": setters, "final_fit_max_iter": MAX_ITER})
+    };
+    judge_reuse(rep, hist, change, &p2, &glm, r2, it2, &history);
+    rep.sample(|| json!({"history": hist, "change": change, "family": fam.name(), "n": p2.n, "p": p2.p, "alpha": p2.alpha, "tolerance": p2.tol, "weights": p2.wkind, "offsets": p2.off.is_some(),
+                         "first_fit_max_iter": first_budget, "first_fit_iterations": it1, "final_fit_iterations": it2, "setters": setters}));
+}
+
 pub fn run(cfg: &Cfg, rep: &mut Report) {
-    rep.rule = "case i: family = i mod 6, alpha = {0,0.1,1,10}[(i/6) mod 4], tol in {1e-5,1e-8,1e-10,1e-14}; n log-uniform in 20..500 (first 96 cases outside lite mode: n in 20..24, p = 2, so that replay records are small), p in 1..6 columns incl. intercept, design in {standardised normal, raw powers of t in [-1,1], 0/1 indicators mixed with normal}, weights {none, U(0.5,3), integer 1..3 (also fitted as replicated rows)}, offsets {none, U(-0.5,0.5)}; slopes in the ball of radius 1.5, responses simulated by the harness's own samplers (quasi-Poisson: gamma-mixed Poisson); half of the cases refitted on permuted rows; max_iter = 300. Then directed cases: max_iter in {1,2,3} and perfectly separable logistic data. non-trivial = p >= 2 and >= 2 Fisher iterations observed through the glm.iter hook; distinct by (family, n, p, alpha, tol, weights, design, offsets, first responses)".into();
+    rep.rule = "case i: family = i mod 6, alpha = {0,0.1,1,10}[(i/6) mod 4], tol in {1e-5,1e-8,1e-10,1e-14}; n log-uniform in 20..500 (first 96 cases outside lite mode: n in 20..24, p = 2, so that replay records are small), p in 1..6 columns incl. intercept, design in {standardised normal, raw powers of t in [-1,1], 0/1 indicators mixed with normal}, weights {none, U(0.5,3), integer 1..3 (also fitted as replicated rows)}, offsets {none, U(-0.5,0.5)}; slopes in the ball of radius 1.5, responses simulated by the harness's own samplers (quasi-Poisson: gamma-mixed Poisson); half of the cases refitted on permuted rows; max_iter = 300. Then directed cases: max_iter in {1,2,3} and perfectly separable logistic data. Then object-reuse histories (case i: mode = i mod 9, family = (i/9) mod 6, alpha by (i/54) mod 4, weights imposed in 2/3 of the cases): one model object is fitted with max_iter in {1,2,3} (Err) and retried with max_iter = 300, as is or after set_tolerance; or fitted with max_iter = 300 and then refitted on new data of the same length (keeping its weights/offsets), on data with another n and p, after set_weights, after set_offset with new data, after set_penalty or set_tolerance; or set_coef on a new model and then fitted; the final fit gets the whole single-fit oracle and is compared with a fresh twin. non-trivial = p >= 2 and >= 2 Fisher iterations observed through the glm.iter hook; distinct by (family, n, p, alpha, tol, weights, design, offsets, first responses)".into();
     rep.assume("the MLE exists: a case is used only if the harness's own damped Fisher scoring converges (for the configured strength and for strength 1) with max |eta| <= 15; others are counted under excluded:*");
     rep.assume("designs with scaled Gram condition number > 1e6 are re-drawn");
     rep.assume("deviance / dispersion-based standard errors / BIC are checked by value only for unweighted and integer-weighted fits (n = rows resp. weight sum); for non-integer weights the property does not fix n, only internal consistency is checked");
@@ -988,6 +1401,32 @@ pub fn run(cfg: &Cfg, rep: &mut Report) {
     par_cases(cfg, rep, 1, n, |i, rng: &mut Rng, rep| main_case(i, small_until, rng, rep));
     let m = cfg.pick(80, 2000, 6);
     par_cases(cfg, rep, 2, m, nonconv_case);
+
+    // object-reuse histories (stream 3)
+    rep.assume("a model object that has been fitted before (Ok or Err) and possibly re-configured through the setters is inside the quantifier: the property speaks of every fit that reports success and of the configuration in force at that call; the reused object is compared with a fresh twin within the convergence-scaled limits of the permutation relation, never bit-for-bit");
+    rep.assume("an Err from the last fit of a reused object is counted (refit:err-where-fresh-ok), not judged: an error is never a wrong answer");
+    let r = cfg.pick(1080, 13500, 9);
+    // interpreter layers (Miri): small problems (n in 20..24, p = 2) — the history matters there, not the size
+    par_cases(cfg, rep, 3, r, |i, rng: &mut Rng, rep| reuse_case(i, cfg.miri(), rng, rep));
+    rep.require("refit:after-err", 1);
+    rep.require("refit:after-ok", 1);
+    rep.require("refit:after-err:ok", 1);
+    rep.require("refit:after-ok:ok", 1);
+    rep.require("refit:compared-with-fresh", 1);
+    if !cfg.lite {
+        rep.require("refit:after-set-coef", 1);
+        for c in ["retry", "retry+set_tolerance", "data", "data+n", "weights", "offsets+data", "penalty", "tolerance", "set_coef"] {
+            rep.require(&format!("refit:change={}", c), 1);
+        }
+        for f in FAMS {
+            rep.require(&format!("refit:{}", f.name()), 1);
+        }
+        for w in ["none", "random", "integer"] {
+            rep.require(&format!("refit:w={}", w), 1);
+        }
+        rep.require("refit:offsets=true", 1);
+        rep.require("refit:offsets=false", 1);
+    }
 
     rep.require("glm.iter", 1);
     rep.require("result:ok", 1);
